@@ -1159,11 +1159,18 @@ static void array_initializer2(Token **rest, Token *tok, Initializer *init, int 
   *rest = tok;
 }
 
+// Unnamed bit-fields do not take part in initialization (C11 6.7.9p9).
+static Member *skip_unnamed_bitfields(Member *mem) {
+  while (mem && mem->is_bitfield && !mem->name)
+    mem = mem->next;
+  return mem;
+}
+
 // struct-initializer1 = "{" initializer ("," initializer)* ","? "}"
 static void struct_initializer1(Token **rest, Token *tok, Initializer *init) {
   tok = skip(tok, "{");
 
-  Member *mem = init->ty->members;
+  Member *mem = skip_unnamed_bitfields(init->ty->members);
   bool first = true;
 
   while (!consume_end(rest, tok)) {
@@ -1174,13 +1181,13 @@ static void struct_initializer1(Token **rest, Token *tok, Initializer *init) {
     if (equal(tok, ".")) {
       mem = struct_designator(&tok, tok, init->ty);
       designation(&tok, tok, init->children[mem->idx]);
-      mem = mem->next;
+      mem = skip_unnamed_bitfields(mem->next);
       continue;
     }
 
     if (mem) {
       initializer2(&tok, tok, init->children[mem->idx]);
-      mem = mem->next;
+      mem = skip_unnamed_bitfields(mem->next);
     } else {
       tok = skip_excess_element(tok);
     }
@@ -1193,7 +1200,8 @@ static void struct_initializer2(Token **rest, Token *tok, Initializer *init, Mem
   // comma that follows that member's initializer.
   bool first = (mem == init->ty->members);
 
-  for (; mem && !is_end(tok); mem = mem->next) {
+  for (mem = skip_unnamed_bitfields(mem); mem && !is_end(tok);
+       mem = skip_unnamed_bitfields(mem->next)) {
     Token *start = tok;
 
     if (!first)
@@ -1222,14 +1230,14 @@ static void union_initializer(Token **rest, Token *tok, Initializer *init) {
     return;
   }
 
-  init->mem = init->ty->members;
+  init->mem = skip_unnamed_bitfields(init->ty->members);
 
   if (equal(tok, "{")) {
-    initializer2(&tok, tok->next, init->children[0]);
+    initializer2(&tok, tok->next, init->children[init->mem->idx]);
     consume(&tok, tok, ",");
     *rest = skip(tok, "}");
   } else {
-    initializer2(rest, tok, init->children[0]);
+    initializer2(rest, tok, init->children[init->mem->idx]);
   }
 }
 
